@@ -46,49 +46,49 @@ theorem deleteRange_eq_decision (w : Wal) (min max : Nat) (hc : w.closed = false
 theorem delDecision_eq_source (w : Wal) (min max : Nat) (hmin : min < 2^64) (hmax : max < 2^64)
     (hf : w.firstIndex < 2^64) (hl : w.lastIndex < 2^64) :
     w.delDecision min max = Generated.deleteRangeDecide min max w.firstIndex w.lastIndex := by
+  -- written to survive rewrites of the conditions in wal.go that keep their meaning (operand order, `!(a > b)` for
+  -- `a <= b`, `1 + max`, …): everything is unfolded to linear arithmetic and closed case by case by `omega`
   unfold Wal.delDecision Generated.deleteRangeDecide
   generalize w.firstIndex = first at *
   generalize w.lastIndex = last at *
-  by_cases h1 : min > max
-  · simp [h1]
-  · by_cases h2 : max < first ∨ min > last
-    · rcases h2 with h2 | h2 <;> simp [h1, h2]
-    · have h2a : ¬ max < first := fun h => h2 (.inl h)
-      have h2b : ¬ min > last := fun h => h2 (.inr h)
-      by_cases h3 : min ≤ first
-      · by_cases h5 : max > last
-        · have : Nat.min max last = last := Nat.min_eq_right (by omega)
-          simp [h1, h2a, h2b, h3, h5, this]
-        · have : Nat.min max last = max := Nat.min_eq_left (by omega)
-          simp [h1, h2a, h2b, h3, h5, this]
-      · by_cases h4 : max ≥ last
-        · have hs : u64sub min 1 = min - 1 := by
-            unfold u64sub; omega
-          simp [h1, h2a, h2b, h3, h4, hs]
-        · simp [h1, h2a, h2b, h3, h4]
+  simp only [u64, u64sub, Bool.or_eq_true, Bool.and_eq_true, decide_eq_true_eq, Bool.not_eq_true', decide_eq_false_iff_not,
+    Nat.min_def, Bool.not_eq_eq_eq_not, Bool.not_true, Nat.reducePow] at *
+  repeat' split
+  all_goals first
+    | (exfalso; omega)
+    | (simp only [DelAction.head.injEq, DelAction.tail.injEq, reduceCtorEq]; omega)
+    | rfl
 
 /-- `truncateHeadLocked`'s scan: the model stops at a segment exactly when the code does -/
 theorem truncateHead_stop_eq_source (s : SegS) (stateLast newMin : Nat) :
     ((¬ s.sealed ∧ stateLast ≥ newMin) ∨ (s.sealed ∧ s.max ≥ newMin)) ↔
       Generated.truncateHeadStopsAt s.sealed s.base s.min s.max stateLast newMin = true := by
   unfold Generated.truncateHeadStopsAt
-  cases s.sealed <;> simp
+  cases s.sealed <;>
+    simp only [Bool.or_eq_true, Bool.and_eq_true, decide_eq_true_eq, Bool.not_eq_true', decide_eq_false_iff_not, Bool.not_true,
+      Bool.not_false, Bool.false_eq_true, Bool.true_eq_false, not_false_eq_true, not_true_eq_false, true_and, false_and, and_true,
+      and_false, or_false, false_or, ge_iff_le, gt_iff_lt, reduceCtorEq] <;> omega
 
 /-- `truncateTailLocked`'s reverse scan: the model keeps a segment exactly when the code does -/
 theorem truncateTail_keep_eq_source (s : SegS) (newMax : Nat) :
     (s.base ≤ newMax) ↔ Generated.truncateTailKeeps s.base s.min s.max newMax = true := by
-  unfold Generated.truncateTailKeeps; simp
+  unfold Generated.truncateTailKeeps
+  simp only [Bool.or_eq_true, Bool.and_eq_true, decide_eq_true_eq, Bool.not_eq_true', decide_eq_false_iff_not]
+  all_goals omega
 
 /-- `StoreLogs` re-bases the empty tail exactly when the model does -/
 theorem store_rebase_eq_source (lastIdx firstNew tailBase : Nat) :
     (lastIdx = 0 ∧ firstNew ≠ tailBase) ↔ Generated.storeRebases lastIdx firstNew tailBase = true := by
-  unfold Generated.storeRebases; simp
+  unfold Generated.storeRebases
+  simp only [u64, u64sub, Bool.or_eq_true, Bool.and_eq_true, decide_eq_true_eq, Bool.not_eq_true', decide_eq_false_iff_not, Nat.reducePow]
+  all_goals omega
 
 /-- `StoreLogs` refuses an index exactly when the model does (indexes below 2^64 − 1, so `lastIdx+1` does not wrap) -/
 theorem store_refuses_eq_source (lastIdx idx : Nat) (h : lastIdx + 1 < 2^64) :
     (lastIdx > 0 ∧ idx ≠ lastIdx + 1) ↔ Generated.storeRefusesIndex lastIdx idx = true := by
   unfold Generated.storeRefusesIndex u64
-  rw [Nat.mod_eq_of_lt h]; simp
+  simp only [Bool.or_eq_true, Bool.and_eq_true, decide_eq_true_eq, Bool.not_eq_true', decide_eq_false_iff_not, Nat.reducePow] at *
+  all_goals omega
 
 /-- at the wrap-around the code's check differs from the contiguous-log reading: after index 2^64 − 1 it asks for
     index 0 (this is why C05 is stated for indexes below 2^64 − 1) -/
